@@ -1,22 +1,38 @@
 """C17 — AR simulation and residual computation are exact inverses.
 
-Model: lean/HydroVerif/Model/C17.lean (both kernels of c_armodels.c index by index, the guards, the
-wrapper defaults of armodels.py); theorems: lean/HydroVerif/Props/C17.lean.
+Model: lean/HydroVerif/Model/C17.lean (both kernels of c_armodels.c index by index, the guards, the wrapper defaults
+and the scalar / array `params` of armodels.py), Model/C17Spec.lean (specification-side quantities), Model/C17Hist.lean
+(histories of calls on one set of argument objects, incl. the alias created by handing a returned array back),
+Model/C17Round.lean (the same kernels in an arithmetic that rounds every result to 53 bits, over the rationals);
+theorems: lean/HydroVerif/Props/C17.lean.
 Correspondence: `armodel_sim` / `armodel_residual` of the REAL code (rebuilt kernels, -ffp-contract=off)
 against the Float instance of the model, bit for bit (NaN canonical, errors by guard kind), request by
-request; on short series additionally against the exact (Rat) instance within a rounding budget.
+request — single calls, runs cut at a random place and resumed from the model's lag buffer (simBuf / resBuf), whole
+histories run by the model's `step` function (replies and final contents); on short series additionally against the
+exact (Rat) instance within a rounding budget and against the `Fl rnd53` instance (53-bit round-to-nearest-even over
+Rat, the arithmetic of the rounding theorems) value for value; the statements of the theorems (recursion with
+`past`, buffer contents with `glag`, homogeneity / shift / additivity, the two rounding budgets) are evaluated by the
+driver on the model's runs of the same inputs.
 Oracle (failing-input search, real code only, independent of the model): the AR recursion checked term by
 term on the outputs; residual(sim(e)) = e with NaN -> 0; sim(residual(y)) = y; NaN innovation == zero
-innovation (bit-equal); zero residual at missing inputs; defaults == the explicit values they stand for;
-valid calls accepted, invalid ones rejected; exact-rational direct recursion on short series.
+innovation (bit-equal); zero residual at missing inputs (order 1: exactly zero); defaults == the explicit values they
+stand for; valid calls accepted, invalid ones rejected; exact-rational direct recursion on short series; on cases in
+which no floating-point operation can round (dyadic coefficients, integer-like values, any power-of-two magnitude) the
+outputs must be the exact rational recursion and residual(sim(e)) must be e, with no tolerance.
 Cases: orders 0..11 x coefficient vectors (decaying, alternating, last-lag-only, unit shift, dyadic,
 random signs, all negative, zero; sum|phi| from 0.3 to 1.5) x means / initial values of any sign,
 default or explicit x series lengths {0,1,2,3,order,order+1,10,200} (thorough: up to 3000) x value classes
-(normal, integer, huge, constant) x NaN layouts (none, first step, inside the first `order` steps, a run
-longer than the order, 10% random, last, all); a separate malformed stream (order 0/11+, NaN coefficient,
-NaN mean, NaN initial value, several at once); a history stream: 2-4 calls on the SAME argument objects with in-place
-edits of the series / the coefficients / the returned arrays between calls, interleaved calls with other arguments of
-equal sizes, results of earlier calls fed back later, pickled / deep-copied arguments — every answer compared with the
+(normal, integer, huge, constant) x a magnitude ladder (30% of the cases: innovations, inputs, mean and initial value
+multiplied by one power of two from 2^-1040 (subnormal) to 2^900, denser around round decimal thresholds) x NaN layouts
+(none, first step, inside the first `order` steps, a run longer than the order, 10% random, last, all); a separate
+malformed stream (order 0/11+, NaN coefficient, NaN mean, NaN initial value, several at once); a history stream: 2-4
+calls on the SAME argument objects with in-place edits of the series / the coefficients / the returned arrays between
+calls, interleaved calls with other arguments of equal sizes, results of earlier calls fed back later, pickled /
+deep-copied arguments, fault paths (1-3 rejected calls of either function — NaN written into the coefficients in place,
+other orders, NaN mean / initial value, default mean on a series without data — between two identical valid calls
+whose answers must agree bit for bit), a quarter of them at another magnitude; a second history stream of random
+operation LISTS (3-10 operations: in-place edits possibly out of range, other objects, feeding the returned array
+back, calls of either function with any mix of defaults, valid or not) — every answer compared with the
 model and the oracle on the state at the time of the call.
 A case is non-trivial when the call is accepted, the series is non-empty and some coefficient is non-zero.
 """
@@ -31,6 +47,9 @@ from . import common as C
 PID = "C17"
 U = 2.0 ** -53
 NAN = float("nan")
+# absolute floor of the rounding budgets: results in the subnormal range carry an absolute error of up to 2^-1075 per
+# operation (about 4p+5 operations per step in the kernel and in the oracle together, coefficients <= 1.5)
+FLOOR = 1e-318
 
 
 # --------------------------------------------------------------------------------------
@@ -133,7 +152,32 @@ def gen_mean_ini(rng):
     return m, ini
 
 
+# magnitude ladder: the recursion is linear, hence scale free (theorems sim_homogeneous / residual_homogeneous): every
+# finite magnitude is inside the quantifier.  Powers of two (scaling by them is exact), from subnormal to 1e270,
+# denser around "round" decimal thresholds (1e-100, 1e-30, 1e-12, 1e-8 ...).
+SCALE_EXPONENTS = [-1040, -1000, -900, -700, -500, -400, -340, -333, -331, -300, -200, -100, -66, -40, -30, -27, -20,
+                   20, 27, 40, 66, 100, 200, 333, 500, 700, 900]
+
+
+def scaled(xs, k):
+    return [math.ldexp(x, k) if x == x else x for x in xs]
+
+
 def gen_case(rng, p, kind, s, n, tag=""):
+    c = gen_case_unit(rng, p, kind, s, n, tag)
+    if rng.random() < 0.3 and "/huge" not in c["tag"]:
+        k = rng.choice(SCALE_EXPONENTS)
+        if abs(c["mean"]) > 1e5:
+            c["mean"] = 20.0
+        for key in ("innov", "inputs"):
+            c[key] = scaled(c[key], k)
+        c["mean"], c["ini"] = math.ldexp(c["mean"], k), math.ldexp(c["ini"], k)
+        c["scale"] = k
+        c["tag"] += f"/scale=2^{k}"
+    return c
+
+
+def gen_case_unit(rng, p, kind, s, n, tag=""):
     m, ini = gen_mean_ini(rng)
     vclass = rng.choice(VCLASSES)
     return {
@@ -251,6 +295,8 @@ class Runner:
         self.reqs, self.impls, self.cases, self.kinds = [], [], [], []
         self.qreqs = []      # (request, impl float list, tolerance list, case)
         self.mreqs = []      # (nanmean request, numpy value, tolerance, case)
+        self.rreqs = []      # (request at Fl rnd53, impl float list, case): 53-bit rounding arithmetic over Rat
+        self.breqs = []      # (boundr / specq request, case): theorem statements evaluated by the driver
         self.stats = {}
 
     def stat(self, k, n=1):
@@ -313,6 +359,16 @@ class Runner:
         self.ctx.count(req, nontrivial, branch,
                        sample={"request": req[:300], "reply": impl[:200]} if nontrivial and len(req) < 600 else None)
 
+    def rounded_ok(self, c, xs, extra=()):
+        """runs sent to the model in 53-bit rounding arithmetic over Rat: unit magnitude (nothing near the subnormal
+        range or overflow), short series"""
+        return ("scale" not in c and len(xs) <= 40 and
+                all((v != v) or abs(v) < 1e150 for v in xs) and all(abs(v) < 1e150 for v in extra))
+
+    @staticmethod
+    def ratlist(xs):
+        return C.slist("nan" if x != x else C.rat(x) for x in xs)
+
     # ---- oracle pieces (numpy float with explicit rounding budgets; no model involved)
     def lagged(self, y, m, ini, p):
         np = self.np
@@ -336,7 +392,7 @@ class Runner:
             pred = (L - m) @ phi + e0
             lhs = y - m
             scale = np.abs(y) + abs(m) + np.abs(e0) + (np.abs(L) + abs(m)) @ np.abs(phi)
-            tol = 8 * (p + 4) * U * scale + 1e-300
+            tol = 8 * (p + 4) * U * scale + FLOOR
             ok = np.isfinite(scale) & np.isfinite(pred) & (scale < 1e290)
             bad = ok & (np.abs(lhs - pred) > tol)
         self.stat("oracle_recursion_steps", int(ok.sum()))
@@ -372,6 +428,34 @@ class Runner:
             out.append(t + m)
         return out
 
+    def exact_run(self, phi, m, ini, e0):
+        """the exact outputs of the recursion when NO floating-point operation of either kernel can round, whatever the
+        order of summation: at every step all terms (innovation, coefficient x lag products, mean) are multiples of one
+        power of two q with (sum of |terms|)/q < 2^53, so every partial sum is representable.  None otherwise."""
+        F = Fraction
+
+        def fits(terms):
+            den = max(t.denominator for t in terms)
+            return den <= 2 ** 1074 and sum(abs(t) for t in terms) * den < 2 ** 53
+
+        ph = [F(x) for x in phi]
+        m_, i_ = F(m), F(ini)
+        if not fits([i_, m_]):
+            return None
+        buf = [i_ - m_] * len(ph)
+        out = []
+        for e in e0:
+            prods = [a * b for a, b in zip(ph, buf)]
+            if not fits([F(e)] + prods):
+                return None
+            t = F(e) + sum(prods)
+            y = t + m_
+            if not (fits([t, m_]) and fits([y, m_]) and fits([t] + prods)):
+                return None
+            buf = [t] + buf[:-1]
+            out.append(y)
+        return out
+
     # ---- one case
     def run(self, c):
         np = self.np
@@ -394,7 +478,8 @@ class Runner:
         czs = causes(phi, rm, ri)
         r_sim = self.call(self.am.armodel_sim, phi, innov, self.pyargs(sform, m, ini), pform, aform)
         mt, it = self.argtok(sform, m, ini)
-        self.add(f"pysim {C.flist(phi)} {C.flist(innov)} {mt} {it}", r_sim, {**base, "form": sform, "innov": innov, "tag": tag},
+        ptok = ("s" + C.f2h(phi[0])) if (pform == "scalar" and p == 1) else C.flist(phi)     # python scalar: np.atleast_1d (paramsOf)
+        self.add(f"pysim {ptok} {C.flist(innov)} {mt} {it}", r_sim, {**base, "form": sform, "innov": innov, "tag": tag, "pform": pform},
                  f"sim/{ordtag}/{'accepted' if r_sim[0] == 'ok' else 'rejected'}", nontriv, czs)
         self.oracle_validation("sim", czs, r_sim, {**base, "form": sform, "n": n})
         if r_sim[0] == "ok" and not czs:
@@ -424,14 +509,44 @@ class Runner:
                 ex = self.exact_sim(phi, rm, ri, e0)
                 A = amplification(phi, n)
                 S = max([abs(float(v)) for v in ex] + [abs(rm), abs(ri)] + [abs(v) for v in e0]) * (1 + sum(abs(x) for x in phi))
-                tol = (A * 4 * (p + 3) + 8) * U * S + 1e-300
+                tol = (A * 4 * (p + 3) + 8) * (U * S + FLOOR)
                 self.check_close("sim/exact_recursion", "armodel_sim differs from the exact AR recursion beyond the rounding budget",
                                  case, y, [float(v) for v in ex], tol)
                 self.qreqs.append(("simq " + C.slist(C.rat(x) for x in phi) + f" {C.rat(rm)} {C.rat(ri)} " +
                                    C.slist("nan" if x != x else C.rat(x) for x in innov), y, list(tol), case))
+                self.breqs.append(("specq " + C.slist(C.rat(x) for x in phi) + f" {C.rat(rm)} {C.rat(ri)} " + self.ratlist(innov), case))
+                cc = ctx.rng.choice([3.0, -0.5, 2.0 ** -400, 1e-3, -7.25, 0.0])
+                dd = ctx.rng.choice([7.0, -2.5, 1e6, 0.1])
+                self.breqs.append(("linq " + C.slist(C.rat(x) for x in phi) + f" {C.rat(rm)} {C.rat(ri)} " + self.ratlist(innov) +
+                                   f" {C.rat(cc)} {C.rat(dd)}", case))
+            # the run cut at a random place and resumed from the model's lag buffer (simBuf) == the run of the real code
+            if n >= 2:
+                cut = ctx.rng.randint(1, n - 1)
+                self.add(f"simcut {C.flist(phi)} {C.f2h(rm)} {C.f2h(ri)} {C.flist(innov)} {cut}", r_sim,
+                         {**base, "innov": innov, "cut": cut, "tag": tag}, f"sim_resumed_from_simBuf/{ordtag}", nontriv)
+            # the same model text in 53-bit rounding arithmetic over Rat (Fl rnd53, the arithmetic of the rounding theorems)
+            if self.rounded_ok(c, innov, (rm, ri)) and all(math.isfinite(v) for v in y) and ctx.rng.random() < 0.5:
+                rq = C.slist(C.rat(x) for x in phi) + f" {C.rat(rm)} {C.rat(ri)} " + self.ratlist(innov)
+                self.rreqs.append(("simr " + rq, y, case))
+                if n <= 12:
+                    self.breqs.append(("boundr " + rq, case))
+            # cases in which no operation can round (dyadic coefficients, integer-like values at any magnitude): the
+            # outputs are the exact rational recursion, with no tolerance
+            exact = self.exact_run(phi, rm, ri, e0) if (n <= 40 and all(math.isfinite(v) for v in y)) else None
+            if exact is not None and n:
+                self.stat("exact_cases_no_rounding_possible")
+                bad = [t for t in range(n) if Fraction(y[t]) != exact[t]]
+                if bad:
+                    ctx.finding("sim/exact_case", "armodel_sim differs from the exact AR recursion on a case in which no floating-point "
+                                "operation can round", {**case, "t": bad[0], "got": y[bad[0]], "required": float(exact[bad[0]])})
             # residual of the simulated series recovers the innovations
             if all(v == v for v in y):
                 r_back = self.call(self.am.armodel_residual, phi, y, ((rm, ri), {}))
+                if exact is not None and r_back[0] == "ok" and len(r_back[1]) == n and not any(Fraction(y[t]) != exact[t] for t in range(n)):
+                    bad = [t for t in range(n) if not (r_back[1][t] == e0[t])]
+                    if bad:
+                        ctx.finding("residual_sim/exact_case", "residual(sim(e)) differs from e on a case in which no floating-point "
+                                    "operation can round", {**case, "y": y, "t": bad[0], "got": r_back[1][bad[0]], "required": e0[bad[0]]})
                 self.add(f"pyres {C.flist(phi)} {C.flist(y)} nan {C.f2h(rm)} {C.f2h(ri)}", r_back, {**base, "inputs": y, "tag": tag},
                          f"residual_of_sim/{ordtag}", nontriv)
                 if r_back[0] != "ok":
@@ -441,7 +556,7 @@ class Runner:
                     with np.errstate(all="ignore"):
                         L = self.lagged(ya, rm, ri, p)
                         scale = np.abs(ya) + abs(rm) + np.abs(e0) + (np.abs(L) + abs(rm)) @ np.abs(np.asarray(phi))
-                        tol = 8 * (p + 4) * U * scale + 1e-300
+                        tol = 8 * (p + 4) * U * scale + FLOOR
                     self.check_close(f"residual_sim/order={'1' if p == 1 else '>=2'}",
                                      "residual(sim(e)) differs from e (NaN innovations read as 0)",
                                      {**case, "y": y}, r_back[1], e0, tol, mask=scale < 1e290)
@@ -466,7 +581,7 @@ class Runner:
                     with np.errstate(all="ignore"):
                         L = self.lagged(ya, rm, ri, p)
                         scale = np.abs(ya) + abs(nmy) + np.abs(e0) + (np.abs(L) + abs(nmy)) @ np.abs(np.asarray(phi))
-                        tol = 8 * (p + 4) * U * scale + 1e-300
+                        tol = 8 * (p + 4) * U * scale + FLOOR
                     self.check_close("residual_sim/sim_mean_default_on_both_calls",
                                      "armodel_residual(params, armodel_sim(params, e)) differs from e when sim_mean is left at its default on both "
                                      "calls: armodel_sim centres on 0., armodel_residual on nanmean(inputs)",
@@ -482,8 +597,8 @@ class Runner:
         czr = causes(phi, qm, qi)
         r_res = self.call(self.am.armodel_residual, phi, inputs, self.pyargs(rform, m, ini), pform, aform)
         mt, it = self.argtok(rform, m, ini)
-        self.add(f"pyres {C.flist(phi)} {C.flist(inputs)} {C.f2h(nm)} {mt} {it}", r_res,
-                 {**base, "form": rform, "inputs": inputs, "tag": tag},
+        self.add(f"pyres {ptok} {C.flist(inputs)} {C.f2h(nm)} {mt} {it}", r_res,
+                 {**base, "form": rform, "inputs": inputs, "tag": tag, "pform": pform},
                  f"residual/{ordtag}/{'accepted' if r_res[0] == 'ok' else 'rejected'}", nontriv and not czr, czr)
         self.oracle_validation("residual", czr, r_res, {**base, "form": rform, "n": len(inputs)})
         if len(inputs) <= 200:
@@ -495,6 +610,12 @@ class Runner:
         if len(res) != len(inputs):
             ctx.finding("residual/length", "output length differs from the input series", {**base, "n": len(inputs), "got": len(res)})
             return
+        if len(inputs) >= 2:
+            cut = ctx.rng.randint(1, len(inputs) - 1)
+            self.add(f"rescut {C.flist(phi)} {C.f2h(qm)} {C.f2h(qi)} {C.flist(inputs)} {cut}", r_res,
+                     {**base, "inputs": inputs, "cut": cut, "tag": tag}, f"residual_resumed_from_resBuf/{ordtag}", nontriv)
+        if self.rounded_ok(c, inputs, (qm, qi)) and all(math.isfinite(v) for v in res) and ctx.rng.random() < 0.5:
+            self.rreqs.append(("resr " + C.slist(C.rat(x) for x in phi) + f" {C.rat(qm)} {C.rat(qi)} " + self.ratlist(inputs), res, case))
         if rform != "mi":
             r_exp = self.call(self.am.armodel_residual, phi, inputs, ((qm, qi), {}))
             if not (r_exp[0] == "ok" and C.flist(r_exp[1]) == C.flist(res)):
@@ -516,9 +637,17 @@ class Runner:
         miss = np.array([x != x for x in inputs], dtype=bool)
         if miss.any():
             with np.errstate(all="ignore"):
-                tol0 = 4 * (p + 2) * U * Lc + 1e-300
+                tol0 = 4 * (p + 2) * U * Lc + FLOOR
             self.check_close(f"residual/missing_input_not_zero/order={'1' if p == 1 else '>=2'}",
                              "the residual at a missing input is not zero", case, res, np.zeros(nn), tol0, mask=miss & (Lc < 1e290))
+            if p == 1:
+                # order 1: (0 + phi*b) - phi*b is exactly zero in any arithmetic where 0 + x = x and x - x = 0 for finite x
+                # (theorem residual_zero_at_missing_order1_any_arithmetic): no tolerance
+                bad = [t for t in range(nn) if miss[t] and math.isfinite(res[t]) and res[t] != 0.0]
+                self.stat("oracle_order1_missing_exact_zero_steps", int(miss.sum()))
+                if bad:
+                    ctx.finding("residual/missing_input_not_zero/order=1", "order 1: the residual at a missing input is not exactly zero",
+                                {**case, "t": bad[0], "got": res[bad[0]], "required": 0.0})
         # simulate the residuals again
         r_fwd = self.call(self.am.armodel_sim, phi, res, ((qm, qi), {}))
         if all(v == v for v in res):
@@ -532,7 +661,7 @@ class Runner:
             with np.errstate(all="ignore"):
                 S = (1 + sphi) * (float(np.max(np.abs(fa))) + abs(qm) + abs(qi) + float(np.max(np.abs(np.asarray(inputs)[~miss]))) if (~miss).any()
                                   else (1 + sphi) * (float(np.max(np.abs(fa))) + abs(qm) + abs(qi)))
-                tol = (A * 4 * (p + 3) + 8) * U * S + 1e-300
+                tol = (A * 4 * (p + 3) + 8) * (U * S + FLOOR)
                 informative = (A * 4 * (p + 3) * U < 1e-7) & np.isfinite(tol) & (S < 1e290)
             self.stat("sim_residual_ill_conditioned_steps", int((~informative).sum()))
             want = np.where(miss, fa + qm, np.asarray(inputs))
@@ -561,7 +690,7 @@ class Runner:
         present = [x for x in inputs if x == x]
         if any(math.isinf(x) for x in present):
             return
-        tol = 4 * (len(present) + 2) * U * (sum(abs(x) for x in present) / max(len(present), 1)) + 1e-300
+        tol = 4 * (len(present) + 2) * U * (sum(abs(x) for x in present) / max(len(present), 1)) + (len(present) + 2) * FLOOR
         self.mreqs.append((f"nanmean {C.flist(inputs)}", nm, tol, case))
         seq = 0.0
         for x in present:
@@ -578,12 +707,12 @@ class Runner:
             itq = C.rat(ini) if (rform[-1] == "i" and rform != "m") else "none"
             if r_res[0] == "ok":
                 S = (1 + sum(abs(x) for x in phi)) * (max([abs(x) for x in present] + [abs(ini), abs(nm) if nm == nm else 0.0]) * 2)
-                tolq = [(8 * (p + 4) + 4 * len(inputs)) * U * S + 1e-300] * len(inputs)
+                tolq = [(8 * (p + 4) + 4 * len(inputs)) * (U * S + FLOOR)] * len(inputs)
                 self.qreqs.append(("pyresdq " + C.slist(C.rat(x) for x in phi) + " " +
                                    C.slist("nan" if x != x else C.rat(x) for x in inputs) + f" {mtq} {itq}", r_res[1], tolq, case))
 
     # ---- histories on one set of argument objects
-    def hcall(self, kind, pa, arr, m, ini, label, hist, expect_e0=None, expect_y=None):
+    def hcall(self, kind, pa, arr, m, ini, label, hist, expect_e0=None, expect_y=None, reject=False):
         """one call of the real code on the argument OBJECTS as they are now; the request for the model and the
         oracle are built from their current contents"""
         np = self.np
@@ -607,8 +736,14 @@ class Runner:
         op = "pysim" if kind == "sim" else "pyres"
         req = (f"pysim {C.flist(phi)} {C.flist(cur)} {C.f2h(m)} {C.f2h(ini)}" if kind == "sim"
                else f"pyres {C.flist(phi)} {C.flist(cur)} nan {C.f2h(m)} {C.f2h(ini)}")
-        self.add(req, res, case, f"history/{hist}/{label}", res[0] == "ok" and len(cur) > 0)
+        self.add(req, res, case, f"history/{hist}/{label}", res[0] == "ok" and len(cur) > 0, causes(phi, m, ini))
         del op
+        if reject:
+            # a fault path inside a history: the call must be rejected, and nothing else may happen
+            if res[0] == "ok":
+                self.ctx.finding(f"history/{hist}/accepts_invalid", "an unsupported order or a NaN parameter / mean / initial value was "
+                                 "accepted in the course of a history of calls", case)
+            return res, out
         if res[0] != "ok":
             self.ctx.finding(f"history/{hist}/rejects_valid", "a valid call was rejected in the course of a history of calls", {**case, "reply": res[1]})
             return res, out
@@ -625,11 +760,11 @@ class Runner:
                 # generous magnitude bound (runs of missing values grow at most by sum|phi| per step)
                 grow = max(1.0, sum(abs(x) for x in phi)) ** len(cur)
                 self.check_close(f"history/{hist}/missing_input_not_zero", "the residual at a missing input is not zero (history of calls)",
-                                 case, res[1], np.zeros(len(cur)), np.full(len(cur), 4 * (len(phi) + 2) * U * big * grow + 1e-300), mask=miss)
+                                 case, res[1], np.zeros(len(cur)), np.full(len(cur), 4 * (len(phi) + 2) * U * big * grow + FLOOR), mask=miss)
         if expect_y is not None and len(cur) and np.isfinite(np.asarray(cur)).all():
             A = amplification(phi, len(cur))
             S = (1 + sum(abs(x) for x in phi)) * (max(abs(x) for x in expect_y) + abs(m) + abs(ini) + max(abs(x) for x in cur))
-            tol = (A * 4 * (len(phi) + 3) + 8) * U * S + 1e-300
+            tol = (A * 4 * (len(phi) + 3) + 8) * (U * S + FLOOR)
             self.check_close(f"history/{hist}/sim_of_residual", "sim(residual(y)) differs from y in the course of a history of calls "
                              "(the residual series was returned by an earlier call)", {**case, "expected": list(expect_y)},
                              res[1], expect_y, tol, mask=(A * 4 * (len(phi) + 3) * U < 1e-7))
@@ -641,7 +776,7 @@ class Runner:
                 with np.errstate(all="ignore"):
                     L = self.lagged(ya, m, ini, pth)
                     scale = np.abs(ya) + abs(m) + np.abs(np.asarray(expect_e0)) + (np.abs(L) + abs(m)) @ np.abs(np.asarray(phi))
-                    tol = 8 * (pth + 4) * U * scale + 1e-300
+                    tol = 8 * (pth + 4) * U * scale + FLOOR
                 self.check_close(f"history/{hist}/residual_of_sim", "residual(sim(e)) differs from e in the course of a history of calls "
                                  "(the simulated series was returned by an earlier call)", {**case, "expected": list(expect_e0)},
                                  res[1], expect_e0, tol)
@@ -657,7 +792,7 @@ class Runner:
             L = self.lagged(y, m, ini, p)
             pred = (L - m) @ ph + e0
             scale = np.abs(y) + abs(m) + np.abs(e0) + (np.abs(L) + abs(m)) @ np.abs(ph)
-            tol = 8 * (p + 4) * U * scale + 1e-300
+            tol = 8 * (p + 4) * U * scale + FLOOR
             ok = np.isfinite(scale) & np.isfinite(pred) & (scale < 1e290)
             bad = ok & (np.abs((y - m) - pred) > tol)
         self.stat("oracle_history_recursion_steps", int(ok.sum()))
@@ -682,7 +817,12 @@ class Runner:
         vcl = rng.choice(["normal", "int", "small", "big"])
         e = np.array(put_nan(rng, gen_values(rng, n, vcl), p, rng.choice(["none", "none", "first", "random"])), dtype=np.float64)
         hist = rng.choice(["edit_input", "edit_params", "edit_returned", "interleave", "interleave_residual", "sim_edit_residual",
-                           "residual_edit_input", "copies", "swap_roles"])
+                           "residual_edit_input", "copies", "swap_roles", "fault_path", "fault_path"])
+        if rng.random() < 0.25:
+            # the same history at another magnitude (the recursion is scale free)
+            k = rng.choice(SCALE_EXPONENTS)
+            e = np.ldexp(e, k)
+            m, ini = math.ldexp(m, k), math.ldexp(ini, k)
 
         def e0_of(a):
             return [0.0 if x != x else float(x) for x in a]
@@ -782,6 +922,42 @@ class Runner:
                 self.ctx.finding(f"history/{hist}/copy_changes_answer", "copies of the arguments give another answer", {"params": [float(v) for v in pa]})
             e3 = e[::-1].copy()[::-1]   # same contents, negative-stride view
             self.hcall("sim", pa, e3, m, ini, "call3_reversed_view_of_reversed_copy", hist)
+        elif hist == "fault_path":
+            # rejected calls in the middle of a history: a valid call before, the same valid call after (same objects,
+            # same answer bit for bit), the fault made by an in-place edit or by other arguments, on either function
+            k1, k2 = rng.choice(["sim", "res"]), rng.choice(["sim", "res"])
+            x = np.array([v + m for v in gen_values(rng, n, "normal")], dtype=np.float64) if k1 == "res" else e
+            r1, y1 = self.hcall(k1, pa, x, m, ini, f"call1_{k1}", hist)
+            first = None if y1 is None else [float(v) for v in y1]
+            for step in range(rng.randint(1, 3)):
+                fault = rng.choice(["nan_param_inplace", "order11", "order0", "nan_mean", "nan_ini", "default_mean_no_data"])
+                if fault == "nan_param_inplace":
+                    j = rng.randrange(p)
+                    keep = pa[j]
+                    pa[j] = NAN
+                    self.hcall(k2, pa, x, m, ini, f"fault{step + 1}_{k2}_{fault}", hist, reject=True)
+                    pa[j] = keep
+                elif fault == "order11":
+                    self.hcall(k2, np.array(gen_params(rng, rng.randint(11, 14), "random", 0.6)), x, m, ini, f"fault{step + 1}_{k2}_{fault}", hist, reject=True)
+                elif fault == "order0":
+                    self.hcall(k2, np.zeros(0), x, m, ini, f"fault{step + 1}_{k2}_{fault}", hist, reject=True)
+                elif fault == "nan_mean":
+                    self.hcall(k2, pa, x, NAN, ini, f"fault{step + 1}_{k2}_{fault}", hist, reject=True)
+                elif fault == "nan_ini":
+                    self.hcall(k2, pa, x, m, NAN, f"fault{step + 1}_{k2}_{fault}", hist, reject=True)
+                else:
+                    allnan = np.full(n, NAN)
+                    res = self.call(self.am.armodel_residual, [float(v) for v in pa], [NAN] * n, ((), {}))
+                    self.add(f"pyres {C.flist(pa)} {C.flist(allnan)} nan none none", res,
+                             {"params": [float(v) for v in pa], "inputs": [NAN] * n, "history": hist, "step": f"fault{step + 1}_{fault}"},
+                             f"history/{hist}/fault_{fault}", False, ["nanMean"])
+                    if res[0] == "ok":
+                        self.ctx.finding(f"history/{hist}/accepts_invalid", "armodel_residual with the default mean accepted a series without data",
+                                         {"params": [float(v) for v in pa], "inputs": [NAN] * n})
+                r2, y2 = self.hcall(k1, pa, x, m, ini, f"call{step + 2}_{k1}_same_valid_call_after_the_fault", hist)
+                if first is not None and r2[0] == "ok" and C.flist(r2[1]) != C.flist(first):
+                    self.ctx.finding(f"history/{hist}/answer_changed_by_rejected_call", "the same valid call gives another answer after a rejected call",
+                                     {"params": [float(v) for v in pa], "mean": m, "ini": ini, "series": [float(v) for v in x], "fault": fault})
         else:  # swap_roles: the same array object used as innovations, then as inputs, then its result fed back
             first_e0 = e0_of(e)
             r1, y1 = self.hcall("sim", pa, e, m, ini, "call1_sim", hist)
@@ -791,6 +967,127 @@ class Runner:
                     r3, z = self.hcall("sim", pa, q, m, ini, "call3_sim_of_those_residuals", hist)
             if y1 is not None and r1[0] == "ok":
                 self.hcall("res", pa, y1, m, ini, "call4_residual_of_first_result", hist, expect_e0=first_e0)
+
+    def history_ops(self, rng):
+        """a random LIST of operations on one set of argument objects — in-place edits of the coefficients / the series /
+        the returned array (index possibly out of range), other objects, feeding the returned array back, calls of either
+        function with any mix of default and explicit sim_mean / sim_ini, valid or not — executed on the real code and,
+        as one `hist` request, by the model's `step` function (Model/C17Hist.lean); every reply is compared, and the
+        oracle checks each call on the contents at the time of the call"""
+        np = self.np
+        p = rng.randint(1, 10)
+        n = rng.choice([0, 1, 2, 3, 5, 8, p, p + 1])
+        pa = np.array(gen_params(rng, p, rng.choice(PARAM_KINDS[:-1]), rng.choice([0.3, 0.6, 0.9])), dtype=np.float64)
+        e = np.array(put_nan(rng, gen_values(rng, n, rng.choice(["normal", "int", "small", "big"])), p,
+                             rng.choice(["none", "none", "first", "random"])), dtype=np.float64)
+        m, ini = gen_mean_ini(rng)
+        if abs(m) > 1e5:
+            m = 20.0
+        req = [f"hist {C.flist(pa)} {C.flist(e)}"]
+        replies = []
+        last = None
+        steps = []
+
+        def call(kind):
+            nonlocal last
+            form = rng.choice(["mi", "mi", "m", "dd", "di"])
+            mm = rng.choice([m, m, m, NAN]) if rng.random() < 0.15 else m
+            ii = rng.choice([ini, NAN]) if rng.random() < 0.1 else ini
+            phi = [float(v) for v in pa]
+            cur = [float(v) for v in e]
+            fn = self.am.armodel_sim if kind == "sim" else self.am.armodel_residual
+            with warnings.catch_warnings():
+                warnings.simplefilter("ignore")
+                nm = float(np.nanmean(e)) if kind == "res" else 0.0
+            pos, kw = self.pyargs(form, mm, ii)
+            try:
+                with warnings.catch_warnings():
+                    warnings.simplefilter("ignore")
+                    out = fn(pa, e, *pos, **kw)
+                res = ("ok", [float(v) for v in np.asarray(out, dtype=np.float64).ravel()])
+            except ValueError as ex:
+                g = re.search(r"returns (\d+)", str(ex))
+                res = ("err", self.guards.get(int(g.group(1)), "other") if g else "other:ValueError")
+                out = None
+            except Exception as ex:  # noqa
+                res = ("err", "other:" + type(ex).__name__)
+                out = None
+            mt, it = self.argtok(form, mm, ii)
+            req.append(f"sim:{mt}:{it}" if kind == "sim" else f"res:{C.f2h(nm)}:{mt}:{it}")
+            replies.append(("ok " + C.flist(res[1])) if res[0] == "ok" else ("err " + res[1]))
+            steps.append(f"{kind}/{form}/{'accepted' if res[0] == 'ok' else 'rejected'}")
+            # the mean / initial value the call stands for, on the contents at this moment
+            rm = mm if form[0] == "m" else (0.0 if kind == "sim" else nm)
+            ri = ii if (form[-1] == "i" and form != "m") else rm
+            cz = causes(phi, rm, ri)
+            case = {"params": phi, "mean": mm, "ini": ii, "form": form, ("innov" if kind == "sim" else "inputs"): cur,
+                    "history": "ops", "ops_so_far": list(req[1:])}
+            if cz and res[0] == "ok":
+                self.ctx.finding(f"history/ops/accepts_invalid/{'+'.join(cz)}", "an unsupported order or a NaN parameter / mean / initial "
+                                 "value was accepted in the course of a history of operations", case)
+            if not cz and res[0] != "ok":
+                self.ctx.finding("history/ops/rejects_valid", "a valid call was rejected in the course of a history of operations",
+                                 {**case, "reply": res[1]})
+            if res[0] == "ok" and not cz:
+                if len(res[1]) != len(cur):
+                    self.ctx.finding("history/ops/length", "output length differs from the series", case)
+                elif kind == "sim":
+                    self.check_recursion_sig("history/ops/sim_recursion", case, phi, rm, ri, [0.0 if x != x else x for x in cur], res[1])
+                last = out
+            elif res[0] == "ok":
+                last = out
+
+        for _ in range(rng.randint(3, 9)):
+            k = rng.choice(["sp", "ss", "ss", "sl", "np", "ns", "fb", "fb", "sim", "sim", "res", "res"])
+            if k == "sp":
+                j = rng.randrange(len(pa) + 1)
+                v = rng.choice([NAN, 0.25, -0.5, 0.0, pa[j % len(pa)] if len(pa) else 0.1])
+                try:
+                    pa[j] = v
+                except IndexError:
+                    pass
+                req.append(f"sp:{j}:{C.f2h(v)}")
+            elif k == "ss":
+                j = rng.randrange(len(e) + 1)
+                v = rng.choice([NAN, 7.0, -3.5, float(rng.randint(-5, 5))])
+                try:
+                    e[j] = v
+                except IndexError:
+                    pass
+                req.append(f"ss:{j}:{C.f2h(v)}")
+            elif k == "sl":
+                j = rng.randrange(n + 2)
+                v = rng.choice([NAN, 99.0, -1.5])
+                if last is not None:
+                    try:
+                        last[j] = v
+                    except IndexError:
+                        pass
+                req.append(f"sl:{j}:{C.f2h(v)}")
+            elif k == "np":
+                q = rng.choice([p, p, rng.randint(1, 10), 0, 11])
+                pa = np.array(gen_params(rng, q, "random", 0.6), dtype=np.float64)
+                if q and rng.random() < 0.15:
+                    pa[rng.randrange(q)] = NAN
+                req.append(f"np:{C.flist(pa)}")
+            elif k == "ns":
+                q = rng.choice([n, n, rng.choice([0, 1, 2, 6])])
+                e = np.array(put_nan(rng, [v + m for v in gen_values(rng, q, "normal")], p, rng.choice(["none", "first", "random", "all"])),
+                             dtype=np.float64)
+                req.append(f"ns:{C.flist(e)}")
+            elif k == "fb":
+                if last is not None:
+                    e = last           # the very array object returned by the last accepted call
+                req.append("fb")
+            else:
+                call(k)
+        call(rng.choice(["sim", "res"]))
+        line = " ".join(req)
+        self.kinds.append([])
+        self.reqs.append(line)
+        self.impls.append(";".join(replies) + f";end {C.flist(pa)} {C.flist(e)}")
+        self.cases.append({"history": "ops", "request": trunc(line)})
+        self.ctx.count(line, any("accepted" in t for t in steps), "history_ops/" + "+".join(sorted(set(t.split("/")[0] + "_" + t.split("/")[2] for t in steps))))
 
     def record_shapes(self):
         """what the wrappers do with a 0-d or a 2-D [n, p] series (the docstrings mention [n, p]; the Cython layer takes
@@ -827,6 +1124,14 @@ class Runner:
                 chunk, size = [], 0
         replies += ctx.lean.ask(chunk)
         for req, impl, rep, case, cz in zip(self.reqs, self.impls, replies, self.cases, self.kinds):
+            if req.startswith("hist "):
+                si, sr = impl.split(";"), rep.split(";")
+                if len(si) != len(sr) or any(not (a == b or (a.startswith("err") and b.startswith("err"))) for a, b in zip(si, sr)):
+                    k = next((i for i, (a, b) in enumerate(zip(si, sr)) if not (a == b or (a.startswith("err") and b.startswith("err")))), min(len(si), len(sr)))
+                    ctx.disagree("C17: history of operations: implementation and model's step function differ",
+                                 {"request": trunc(req), "call_index": k, "impl": trunc(si[k] if k < len(si) else "(missing)", 400),
+                                  "model": trunc(sr[k] if k < len(sr) else "(missing)", 400)})
+                continue
             if impl.startswith("err") and rep.startswith("err"):
                 # the property constrains rejection, not which guard speaks first: compare the guard only when
                 # there is a single cause and the current source line is one of the four recognised guards
@@ -849,13 +1154,33 @@ class Runner:
                                         for a, b, t in zip(y, ex, tol)):
                 ctx.disagree("C17: code differs from the exact (Rat) model beyond the rounding budget",
                              {"request": req, "impl": y, "model": [float(v) for v in ex]})
+        rrep = ctx.lean.ask([q[0] for q in self.rreqs])
+        for (req, y, case), rep in zip(self.rreqs, rrep):
+            toks = rep.split(" ", 2)
+            same_range = len(toks) == 3 and toks[0] == "ok" and toks[1] == "1"
+            ctx.count(req, same_range, "rounded_arithmetic_rnd53/" + req.split(" ", 1)[0])
+            if not rep.startswith("ok "):
+                ctx.disagree("C17: the model in rounding arithmetic rejects a call the code accepts", {"request": trunc(req), "model": rep})
+                continue
+            if not same_range:
+                self.stat("rounded_runs_entering_the_subnormal_range")
+                continue
+            ex = [Fraction(t) for t in C.parse_list(toks[2])]
+            if len(ex) != len(y) or any(Fraction(a) != b for a, b in zip(y, ex)):
+                ctx.disagree("C17: the code differs from the model run in 53-bit round-to-nearest-even arithmetic over the rationals (Fl rnd53)",
+                             {"request": trunc(req), "impl": y[:16], "model": [float(v) for v in ex[:16]]})
+        brep = ctx.lean.ask([q[0] for q in self.breqs])
+        for (req, case), rep in zip(self.breqs, brep):
+            ctx.count(req, True, "theorem_statement_evaluated/" + req.split(" ", 1)[0])
+            if rep != "ok true true":
+                ctx.disagree("C17: a theorem's statement evaluated by the driver on this input does not hold in the model", {"request": trunc(req), "model": rep})
         mrep = ctx.lean.ask([q[0] for q in self.mreqs])
         for (req, nm, tol, case), rep in zip(self.mreqs, mrep):
             ctx.count(req, nm == nm, "data_mean")
             mv = C.h2f(rep)
             if (mv != mv) != (nm != nm) or (mv == mv and abs(mv - nm) > tol):
                 ctx.disagree("C17: numpy.nanmean and the model's data mean differ", {"request": trunc(req), "numpy": nm, "model": mv, "tol": tol})
-        self.reqs, self.impls, self.cases, self.kinds, self.qreqs, self.mreqs = [], [], [], [], [], []
+        self.reqs, self.impls, self.cases, self.kinds, self.qreqs, self.mreqs, self.rreqs, self.breqs = [], [], [], [], [], [], [], []
 
 
 def safe_fsum(it):
@@ -933,6 +1258,10 @@ def body(ctx):
     for _ in range(ctx.scale(600, 6000)):
         R.history(rng)
     R.flush()
+    # histories as arbitrary operation lists, run by the model's step function as well
+    for _ in range(ctx.scale(800, 8000)):
+        R.history_ops(rng)
+    R.flush()
     # shapes outside the quantifier (recorded, never compared): 0-d and 2-D series
     R.record_shapes()
     # malformed stream
@@ -945,8 +1274,10 @@ def body(ctx):
     ctx.assumptions += [
         "numpy.nanmean (default sim_mean of armodel_residual): its value is handed to the wrapper model; the model's own data mean "
         "(sequential sum) is compared with it within n*u and, where the bits coincide, used in its place",
-        "IEEE rounding is executed (Float instance, bit-equal to the kernels built with -ffp-contract=off), not proved; "
-        "the theorems are over a commutative ring where no computed value is NaN",
+        "IEEE rounding: executed (Float instance, bit-equal to the kernels built with -ffp-contract=off) and, absent overflow / "
+        "underflow, proved in the standard model (kernel_recursion_rounded, kernel_residual_sim_rounded, with rnd53 proved to "
+        "meet it and run value for value against the real kernels); the other theorems are over a commutative ring where no "
+        "computed value is NaN",
         "the oracle's tolerances are first-order rounding budgets scaled by the AR impulse response; steps whose budget "
         "exceeds 1e-7 relative (explosive coefficients, long series) are counted as ill-conditioned, not checked",
         "1-D float64 series (the wrappers reject 2-D input although their docstring mentions [n, p] arrays)",
@@ -958,4 +1289,5 @@ def main(tier, replay=None):
                        level_partial=["float_recursion_statement", "float_residual_sim_statement", "float_sim_residual_statement"],
                        trusted=["numpy.nanmean / astype / atleast_1d (external, compared by result)",
                                 "gcc -O1 -ffp-contract=off build of c_armodels.c from the working tree",
-                                "IEEE-754 double rounding: executed, not proved"])
+                                "IEEE-754 double: the kernels' arithmetic is compared value for value with Fl rnd53 (normal range); "
+                                "overflow and the subnormal range are executed (Float instance) and budgeted by the oracle, not proved"])
